@@ -160,6 +160,35 @@ def table_for(ev, fed):
         K.tls13_body(t, g("key"), g("iv"), g("seq"), ev["type"], fed, ev["padlen"])
     elif f == "tls13_dec":
         K.tls13_open(t, g("key"), g("iv"), g("seq"), fed)
+    elif f in ("zuc_ks", "zuc256_ks", "zuc_enc", "eea3", "eia3", "zuc_mac", "zuc256_mac", "chacha20_ks"):
+        import zucref, chacharef
+        ksb = lambda words: b"".join(w.to_bytes(4, "big") for w in words)
+        key, iv = g("key"), g("iv")
+        nbits = ev.get("nbits", 0)
+        if f == "zuc_ks":
+            t._rec("zuc", key + iv, ksb(zucref.zuc_keystream(key, iv, ev["nwords"] + 2)))
+        elif f == "zuc256_ks":
+            t._rec("zuc256", key + iv, ksb(zucref.zuc256_keystream(key, iv, ev["nwords"] + 2)))
+        elif f == "zuc_enc":
+            t._rec("zuc", key + iv, ksb(zucref.zuc_keystream(key, iv, len(fed) // 4 + 3)))
+        elif f in ("eea3", "eia3"):
+            c4 = bytes(ev["count4"]); b5, d = ev["bearer"], ev["dir"]
+            if f == "eea3":
+                h = c4 + bytes([(b5 << 3) | (d << 2), 0, 0, 0]); iv2 = h + h
+                t._rec("zuc", key + iv2, ksb(zucref.zuc_keystream(key, iv2, len(fed) // 4 + 3)))
+            else:
+                h = bytearray(2 * (c4 + bytes([b5 << 3, 0, 0, 0]))); h[8] ^= d << 7; h[14] ^= d << 7
+                t._rec("zuc", key + bytes(h), ksb(zucref.zuc_keystream(key, bytes(h), (nbits + 31) // 32 + 5)))
+        elif f == "zuc_mac":
+            t._rec("zuc", key + iv, ksb(zucref.zuc_keystream(key, iv, (nbits + 31) // 32 + 5)))
+        elif f == "zuc256_mac":
+            mb = ev["macbits"]
+            t._rec("zuc256mac%d" % mb, key + iv, ksb(zucref.zuc256_mac_keystream(key, iv, mb, (nbits + 2 * mb + 31) // 32 + 3)))
+        else:
+            ctr = int.from_bytes(g("counter"), "little")
+            for i in range(ev["nwords"]):
+                cc = (ctr + i) & 0xffffffff
+                t._rec("chacha", key + cc.to_bytes(4, "little") + iv, chacharef.chacha20_block(key, cc, iv))
     else:
         raise RuntimeError("no reference construction for f=%s" % f)
     return t.json()
@@ -170,6 +199,8 @@ def annotate(events):
     if not events:
         return events
     head = events[0]
+    if "count" in head and "count4" not in head:                 # 32-bit value: TLC integers are signed 32-bit
+        head["count4"] = list(int(head.pop("count")).to_bytes(4, "big"))
     if head["e"] == "Call":
         head["T"] = table_for(head, bytes(head.get("in", [])))
     elif head["e"] == "Init":
